@@ -1072,6 +1072,8 @@ class Interp:
             raise CheckerError('% formatting unsupported')
         if hasattr(a, 'binop'):
             return a.binop(self, op, b, node)
+        if hasattr(b, 'rbinop'):
+            return b.rbinop(self, op, a, node)
         raise CheckerError(f'operator {type(op).__name__} on {a!r}, {b!r} unsupported at line {node.lineno}')
 
     def _strish(self, v):
@@ -1926,11 +1928,27 @@ class SymIntStr:
     def __init__(self, z):
         self.z = z
 
+    def py_str(self, I, node):
+        return self
+
 
 class FString:
-    """an f-string with an abstract integer part: prefix + str(int) + suffix, used as a map key"""
+    """an f-string with abstract integer parts: literal pieces and str(<symbolic int>) pieces, kept as a list (used as a map key / structured text)"""
     def __init__(self, parts):
         self.parts = parts
+
+    def py_str(self, I, node):
+        return self
+
+    def binop(self, I, op, other, node):
+        if isinstance(op, ast.Add) and isinstance(other, (str, FString, SymIntStr)):
+            return FString(list(self.parts) + (list(other.parts) if isinstance(other, FString) else [other]))
+        raise CheckerError(f'operator {type(op).__name__} on an f-string with symbolic parts')
+
+    def rbinop(self, I, op, other, node):
+        if isinstance(op, ast.Add) and isinstance(other, (str, SymIntStr)):
+            return FString([other] + list(self.parts))
+        raise CheckerError(f'operator {type(op).__name__} on an f-string with symbolic parts')
 
 
 class SymSmallSet:
